@@ -435,7 +435,15 @@ func (fr *frame) applyContract(fc *FuncContract, key string, callee *ssa.Functio
 	env.old = pre
 	bindResults(env, sig, res)
 	for _, e := range fc.Ensures {
-		s.assume(st, s.evalBool(env, e.E))
+		prevErr := s.Err
+		g := s.evalBool(env, e.E)
+		if prevErr == nil && s.Err != nil && strings.Contains(s.Err.Error(), "unknown identifier") {
+			// the clause speaks about a local of the callee: it is checked against the
+			// callee's body but carries no information for a caller
+			s.Err = nil
+			continue
+		}
+		s.assume(st, g)
 		if e.Assumed {
 			s.Trusted[key+" assumes "+e.Label+": "+e.Src] = true
 		}
@@ -778,8 +786,26 @@ func (fr *frame) atAsserts(key string, site *ssa.Call, args []TV, c *ssa.CallCom
 		// a source variable the assertion names but that has no value yet at this call
 		// (the call precedes its assignment): the assertion cannot hold at this site
 		prevErr := s.Err
-		g := s.evalBool(env, at.C.E)
 		src := at.C.Src
+		var g string
+		if imp, ok := at.C.E.(EBin); ok && imp.Op == "==>" {
+			// guard ==> body: where the body names a variable that has no value at this
+			// site, the assertion holds exactly if the guard is false here
+			a := s.evalBool(env, imp.X)
+			if prevErr == nil && s.Err == nil {
+				b := s.evalBool(env, imp.Y)
+				if s.Err != nil && strings.Contains(s.Err.Error(), "unknown identifier") {
+					src = src + "   [" + s.Err.Error() + ": not assigned at this call]"
+					s.Err = nil
+					b = "false"
+				}
+				g = fmt.Sprintf("(=> %s %s)", a, b)
+			} else {
+				g = a
+			}
+		} else {
+			g = s.evalBool(env, at.C.E)
+		}
 		if prevErr == nil && s.Err != nil && strings.Contains(s.Err.Error(), "unknown identifier") {
 			src = src + "   [" + s.Err.Error() + ": not assigned before this call]"
 			s.Err = nil
